@@ -387,7 +387,7 @@ pub fn run(ctx: &'static Ctx) -> (&'static str, Value, Vec<&'static str>) {
     check_estimate_static(ctx, &mut s2);
     
     // rolling window: stateright over histories
-    let configs: Vec<(u8, usize)> = if thorough { vec![(1, 12), (2, 6), (3, 5)] } else { vec![(1, 11), (2, 5), (3, 4)] };
+    let configs: Vec<(u8, usize)> = if thorough { vec![(1, 13), (2, 7), (3, 6)] } else { vec![(1, 11), (2, 5), (3, 4)] };
     let mut states = 0u64;
     let mut transitions = 0u64;
     let mut s3 = Stats::new();
